@@ -221,7 +221,15 @@ func (x *c02Run) engine(h uint64) *liquid.Engine {
 	other.RegisterFilter("upcas", func(s string) string { return "!defined-elsewhere!" })
 	other.RegisterFilter("nosuchfilter", func(s string) string { return "!defined-elsewhere!" })
 	other.RegisterTag("echo", func(render.Context) (string, error) { return "!other-engine-echo!", nil })
+	other.RegisterFilter("hx", func(s string) string { return "!other-engine-hx!" })
+	other.RegisterFilter("hwhere", func(a []any, name string, x any) []any { return nil })
 	other.ParseAndRenderString(`{{ "x" | upcase }}{% echo 1 %}`, map[string]any{})
+	// ... and renders this case's own template (and prelude) first: whatever the process
+	// remembers per expression text now comes from an engine with other filters and tags
+	guard(func() Res { other.ParseAndRenderString(x.src, x.b0); return Res{} })
+	for _, src := range x.cs.Prelude {
+		guard(func() Res { other.ParseAndRenderString(src, x.b0); return Res{} })
+	}
 	e := x.newEngine()
 	// a seeded history of other activity on this engine, including failures
 	hr := NewRng(h)
